@@ -569,6 +569,48 @@ theorem C02_churn_no_ub : ∀ (n : Nat) {w : World} {id : Ident}, Inv w →
 
 end Brood
 
+namespace Brood
+open Alloc
+
+/-! ### the wrap witness is reachable, for every counter size -/
+
+/-- `k` rounds of release + allocate on the machine allocator, starting from the live identifier
+`id`. -/
+def cycleW (m : Nat) (loc : Loc) : Nat → Alloc → Ident → Out (Alloc × Ident)
+  | 0, a, id => .ok (a, id)
+  | k + 1, a, id =>
+    match a.release id with
+    | .ub e => .ub e
+    | .ok a1 =>
+      match allocateW m a1 loc with
+      | .ub e => .ub e
+      | .ok (a2, id2) => cycleW m loc k a2 id2
+
+theorem cycleW_spec (m : Nat) (loc : Loc) : ∀ (k g : Nat),
+    cycleW m loc k ⟨[⟨g, some loc⟩], []⟩ ⟨0, g⟩ =
+      .ok (⟨[⟨if k = 0 then g else (g + k) % m, some loc⟩], []⟩, ⟨0, if k = 0 then g else (g + k) % m⟩)
+  | 0, g => by simp [cycleW]
+  | k + 1, g => by
+    have ih := cycleW_spec m loc k ((g + 1) % m)
+    simp only [cycleW, release, allocateW]
+    simp only [List.getElem?_cons_zero, List.set_cons_zero, List.nil_append]
+    rw [ih]
+    by_cases hk : k = 0
+    · subst hk; simp
+    · simp [hk, Nat.mod_add_mod, Nat.add_assoc, Nat.add_comm 1 k]
+
+/-- **Reachability of the wrap, every counter size `m > 0`**: the allocator's first identifier
+`⟨0, 0⟩`, released and its slot reused `m` times, is handed out again — on the machine allocator
+uniqueness fails after exactly `m` reuses of one slot (and not before: `C02_machine_partial_m`). -/
+theorem C02_machine_wrap_reachable (m : Nat) (hm : 0 < m) (loc : Loc) :
+    ∃ a', cycleW m loc m ⟨[⟨0, some loc⟩], []⟩ ⟨0, 0⟩ = .ok (a', ⟨0, 0⟩) := by
+  have hm0 : m ≠ 0 := by omega
+  refine ⟨⟨[⟨0, some loc⟩], []⟩, ?_⟩
+  rw [cycleW_spec m loc m 0]
+  simp [hm0]
+
+end Brood
+
 #print axioms Brood.C02_unique
 #print axioms Brood.C02_fresh
 #print axioms Brood.C02_dead_forever
@@ -587,3 +629,4 @@ end Brood
 #print axioms Brood.C02_machine_counter
 #print axioms Brood.C02_churn_never_returns
 #print axioms Brood.C02_churn_no_ub
+#print axioms Brood.C02_machine_wrap_reachable
